@@ -1,4 +1,38 @@
 //! C15 — Connections live while referenced, expire 32 s after last use, never reused dead
+//!
+//! What is generated
+//! * a case = one mock connection ("the connection under test": outbound through a mock TCP factory and
+//!   `select_transport`, or inbound through a mock listener), a history of ops with gaps on a grid
+//!   {0 = same instant and NO scheduling point in between, 1, 100, 16 s, 32 s -3/-1/+1/+3 ms, 64 s} under a paused
+//!   clock, and a tokio seed (decides the poll order inside the receive task's `select!`).
+//! * ops on the connection under test: clone / drop / drop-all of handles, inbound message (application keeps or
+//!   releases the handle that comes with it), peer close, garbage bytes, `Select` (select_transport to the same
+//!   remote, handle kept), `Touch` (select_transport to the same remote and release of the returned handle with no
+//!   scheduling point in between: the registry is changed twice between two polls of the connection's task).
+//!   Ops that share an instant are executed back to back, the stack runs only after the last of them, so a
+//!   pick-up, a release, a message, a close can all be pending when the task is polled next.
+//! * ops that must NOT concern the connection under test: `Probe` = select_transport for another target whose
+//!   registry scan passes over the connection (sips: URI on the same address = security level too low; other port;
+//!   other host). The returned handle (a side connection, or an error when nothing can serve the target) is
+//!   released at once.
+//! * sub-checks: `race` (drop-last + message in one instant, enumerated x seeds), `pickup` (pick-up + release of an
+//!   idle connection between two polls together with message / close / garbage in the same instant, enumerated x
+//!   seeds), `probe` (selections for other targets while the connection is idle / silent / referenced, once and
+//!   periodically, enumerated), `history` (random histories over all ops).
+//!
+//! Oracle (lifecycle reference model, written from the property statement, never asks ezk what it expects)
+//! * registered while referenced; every message written while the connection is alive is delivered exactly once,
+//!   in order; closed (EOF seen by the peer) 32 s after the last use = last handle release or last message on an
+//!   unreferenced connection; unregistered at once on peer close / framing error and never selected afterwards;
+//!   a live outbound connection is reused by select_transport; inbound connections are never selected;
+//!   a connection the history has moved away from (inbound one after a Select) still expires 32 s after its own
+//!   last use; selections for other targets are not a use of the connection (its expiry instant is unchanged).
+//!
+//! Not asserted
+//! * anything within 2 ms of a 32 s edge (tie); what a select_transport returns in the very instant the last handle
+//!   was released or the peer closed, before the stack ran (the harness inserts a scheduling point there);
+//!   what a `Probe` returns (error, new or pooled side connection) and the lifetime of side connections;
+//!   TLS connections (only a non-secure factory is registered, so a sips: target has no transport).
 
 use super::c06::ChannelLayer;
 use crate::engine::*;
@@ -9,11 +43,42 @@ use serde::{Deserialize, Serialize};
 use sip_core::transport::TpHandle;
 use sip_core::IncomingRequest;
 use sip_types::uri::sip::SipUri;
-use std::sync::atomic::Ordering;
 use std::sync::Arc;
 use tokio::sync::mpsc;
 
 const IDLE: u64 = 32_000;
+const MAIN_REMOTE: &str = "192.0.2.5:5060";
+
+/// a selection target the connection under test must not serve
+#[derive(Serialize, Deserialize, Clone, Copy, Debug, Hash, PartialEq, Eq)]
+pub enum Other {
+    /// sips: URI resolving to the very address the (non-secure) connection is connected to
+    SecureSameAddr,
+    /// same host, other port
+    OtherPort,
+    /// other host, same port
+    OtherHost,
+}
+
+impl Other {
+    const ALL: [Other; 3] = [Other::SecureSameAddr, Other::OtherPort, Other::OtherHost];
+    fn uri(self) -> SipUri {
+        match self {
+            Other::SecureSameAddr => "sips:peer@192.0.2.5:5060;transport=tcp",
+            Other::OtherPort => "sip:peer@192.0.2.5:5070;transport=tcp",
+            Other::OtherHost => "sip:peer@192.0.2.6:5060;transport=tcp",
+        }
+        .parse()
+        .unwrap()
+    }
+    fn label(self) -> &'static str {
+        match self {
+            Other::SecureSameAddr => "probe:sips-same-address-while-unreferenced",
+            Other::OtherPort => "probe:other-port-while-unreferenced",
+            Other::OtherHost => "probe:other-host-while-unreferenced",
+        }
+    }
+}
 
 #[derive(Serialize, Deserialize, Clone, Copy, Debug, Hash, PartialEq, Eq)]
 pub enum Op {
@@ -29,8 +94,12 @@ pub enum Op {
     PeerClose,
     /// peer sends bytes that are not SIP
     Garbage,
-    /// application asks for a transport to the same remote (select_transport)
+    /// application asks for a transport to the same remote (select_transport) and keeps the handle
     Select,
+    /// application asks for a transport to the same remote and releases the handle again before anything else runs
+    Touch,
+    /// application asks for a transport to another target; the handle (if any) is released at once
+    Probe { target: Other },
 }
 
 #[derive(Serialize, Deserialize, Clone, Debug, Hash)]
@@ -41,7 +110,7 @@ pub struct Case {
     pub rng: u8,
 }
 
-const GAPS: &[u64] = &[0, 0, 1, 1, 100, 16_000, IDLE - 1, IDLE + 1, IDLE - 1, IDLE + 1, 2 * IDLE];
+const GAPS: &[u64] = &[0, 0, 0, 0, 1, 1, 100, 16_000, 16_000, IDLE - 3, IDLE - 1, IDLE + 1, IDLE + 3, IDLE - 1, IDLE + 1, 2 * IDLE];
 
 pub fn strategy() -> BoxedStrategy<Case> {
     let op = prop_oneof![
@@ -53,6 +122,10 @@ pub fn strategy() -> BoxedStrategy<Case> {
         1 => Just(Op::PeerClose),
         1 => Just(Op::Garbage),
         2 => Just(Op::Select),
+        3 => Just(Op::Touch),
+        1 => Just(Op::Probe { target: Other::SecureSameAddr }),
+        1 => Just(Op::Probe { target: Other::OtherPort }),
+        1 => Just(Op::Probe { target: Other::OtherHost }),
     ];
     (any::<bool>(), prop::collection::vec((any::<u16>(), op), 1..9), any::<u8>())
         .prop_map(|(inbound, ops, rng)| Case {
@@ -100,6 +173,96 @@ pub fn race_cases(tier: Tier) -> Vec<Case> {
     out
 }
 
+/// an idle (unreferenced, timer running) outbound connection is picked up by select_transport and released again
+/// between two polls of its task, and in the same instant something else happens on it; afterwards the
+/// application holds (or does not hold) the handle that came with the message across a 32 s edge.
+/// Enumerated: how the connection became outbound+idle x idle time before x shape of the instant x keep x
+/// time after x tokio seeds.
+pub fn pickup_cases(tier: Tier) -> Vec<Case> {
+    let mut out = vec![];
+    let seeds = tier.pick(32u32, 256u32);
+    let clusters = |keep: bool| -> Vec<Vec<Op>> {
+        let msg = Op::Msg { keep };
+        let mut v = vec![
+            vec![Op::Touch, msg],
+            vec![msg, Op::Touch],
+            vec![Op::Select, Op::Drop, msg],
+            vec![Op::Select, msg, Op::Drop],
+            vec![Op::Select, Op::Clone, Op::DropAll, msg],
+            vec![Op::Touch, msg, msg],
+            vec![Op::Touch, msg, Op::PeerClose],
+        ];
+        if !keep {
+            // shapes without a message do not depend on `keep`
+            v.push(vec![Op::Touch, Op::PeerClose]);
+            v.push(vec![Op::Touch, Op::Garbage]);
+        }
+        v
+    };
+    for inbound in [false, true] {
+        for lead in [1u64, IDLE - 3] {
+            for keep in [false, true] {
+                for cluster in clusters(keep) {
+                    for tail in [IDLE - 3, IDLE + 3] {
+                        for rng in 0..seeds {
+                            let mut ops = vec![];
+                            if inbound {
+                                // the history leaves the accepted connection for an outbound one to the same remote
+                                ops.push((1, Op::Select));
+                            }
+                            ops.push((1, Op::DropAll));
+                            for (i, op) in cluster.iter().enumerate() {
+                                ops.push((if i == 0 { lead } else { 0 }, *op));
+                            }
+                            ops.push((tail, Op::Msg { keep: false }));
+                            ops.push((1, Op::Select));
+                            out.push(Case { inbound, ops, rng: rng as u8 });
+                        }
+                    }
+                }
+            }
+        }
+    }
+    out
+}
+
+/// selections for other targets (registry scans that pass over the connection under test) while it is idle
+/// (outbound, last handle released), silent (inbound, never used) or referenced; once, or periodically with a
+/// period below 32 s. Nothing here depends on the select order, a few seeds only.
+pub fn probe_cases(tier: Tier) -> Vec<Case> {
+    let mut out = vec![];
+    let seeds = tier.pick(2u32, 16u32);
+    for inbound in [false, true] {
+        for referenced in [false, true] {
+            for target in Other::ALL {
+                for lead in [100u64, 16_000, IDLE - 3] {
+                    for repeat in [1usize, 3] {
+                        for rng in 0..seeds {
+                            let mut ops = vec![];
+                            match (inbound, referenced) {
+                                (false, false) => ops.push((1, Op::DropAll)),
+                                (false, true) => {}
+                                (true, false) => {}
+                                (true, true) => ops.push((1, Op::Msg { keep: true })),
+                            }
+                            ops.push((lead, Op::Probe { target }));
+                            for _ in 1..repeat {
+                                ops.push((20_000, Op::Probe { target }));
+                            }
+                            if referenced {
+                                ops.push((1, Op::DropAll));
+                                ops.push((20_000, Op::Probe { target }));
+                            }
+                            out.push(Case { inbound, ops, rng: rng as u8 });
+                        }
+                    }
+                }
+            }
+        }
+    }
+    out
+}
+
 // ---------------------------------------------------------------------------------------------
 // reference model
 
@@ -113,11 +276,30 @@ struct Model {
     unused_since: Option<u64>,
     /// instant the peer must see EOF because of idle expiry
     expect_eof: Option<u64>,
-    connects: u32,
     /// number of connections ever opened (index of the current one)
     generation: u32,
     expected_delivered: Vec<String>,
     ambiguous: bool,
+    /// since the stack last ran: the last handle was released, or the peer closed / sent garbage. What a
+    /// select_transport finds in this state is not asserted (the harness lets the stack run first)
+    dirty: bool,
+    /// since the stack last ran: a message was written to the live connection (it will be delivered in this instant)
+    msg_unsettled: bool,
+    /// since the stack last ran: select_transport picked up the connection while nobody referenced it
+    revived_this_instant: bool,
+    /// since the stack last ran: the connection was picked up while unreferenced and released again, i.e. the
+    /// registry went unused -> used -> (dead reference count) between two polls of the connection's task
+    pickup_released: bool,
+    /// that happened at least once in the history
+    pickup_released_ever: bool,
+    /// since the stack last ran: bytes of a message / an end of stream or garbage wait to be read by the task
+    task_has_message: bool,
+    task_has_close: bool,
+    /// the connection's task was polled with a pick-up + release AND a message (a close) pending
+    pickup_with_message_ever: bool,
+    pickup_with_close_ever: bool,
+    /// connections the history has moved away from: (peer conn id, instant their own idle period ends)
+    left: Vec<(u32, u64)>,
 }
 
 impl Model {
@@ -133,6 +315,38 @@ impl Model {
             }
         }
     }
+    fn released_last(&mut self, t: u64) {
+        self.unused_since = Some(t);
+        self.dirty = true;
+        if self.revived_this_instant {
+            self.pickup_released = true;
+            self.pickup_released_ever = true;
+        }
+    }
+    /// the stack ran
+    fn settled(&mut self) {
+        if self.pickup_released && self.task_has_message {
+            self.pickup_with_message_ever = true;
+        }
+        if self.pickup_released && self.task_has_close {
+            self.pickup_with_close_ever = true;
+        }
+        self.dirty = false;
+        self.revived_this_instant = false;
+        self.pickup_released = false;
+        self.task_has_message = false;
+        self.task_has_close = false;
+    }
+}
+
+/// which generator shapes the case really reached (depends on the model state, so collected while running)
+#[derive(Debug, Clone, Default)]
+pub struct Facts {
+    pub select_while_message_pending: bool,
+    pub probe_while_unreferenced: Vec<Other>,
+    pub probe_while_referenced: bool,
+    pub probe_refused: bool,
+    pub probe_side_connection: bool,
 }
 
 // ---------------------------------------------------------------------------------------------
@@ -140,7 +354,10 @@ impl Model {
 pub struct Observed {
     pub delivered: Vec<(u64, String, u32)>,
     pub problems: Vec<String>,
-    pub eof: Vec<(u32, Option<u64>)>,
+    /// (peer conn id, instant the peer saw ezk close) of the connection under test at the end of the history
+    pub eof: Option<(u32, Option<u64>)>,
+    /// the same for every connection of the case
+    pub all_eof: Vec<(u32, Option<u64>)>,
     pub final_count: usize,
 }
 
@@ -149,25 +366,42 @@ enum PeerAct {
     Close,
 }
 
-/// act on the peer end of the connection the history currently talks about
-async fn peer_do(first_inbound: bool, inbound: &mut Vec<PeerConn>, probe: &FactoryProbe, act: PeerAct) -> bool {
-    let mut taken = if first_inbound { inbound.pop() } else { probe.conns.lock().pop() };
-    let ok = match (&mut taken, act) {
-        (Some(p), PeerAct::Write(b)) => p.write(&b).await,
-        (Some(p), PeerAct::Close) => {
+/// act on the peer end of connection `id` (taken out of its list while the peer writes, so that no lock is held
+/// across an await, and put back in place)
+async fn peer_do(id: Option<u32>, inbound: &mut Vec<PeerConn>, probe: &FactoryProbe, act: PeerAct) -> bool {
+    let Some(id) = id else { return false };
+    let mut taken: Option<(bool, usize, PeerConn)> = None;
+    if let Some(pos) = inbound.iter().position(|p| p.id == id) {
+        taken = Some((true, pos, inbound.remove(pos)));
+    } else {
+        let mut g = probe.conns.lock();
+        if let Some(pos) = g.iter().position(|p| p.id == id) {
+            taken = Some((false, pos, g.remove(pos)));
+        }
+    }
+    let Some((is_inbound, pos, mut p)) = taken else { return false };
+    let ok = match act {
+        PeerAct::Write(b) => p.write(&b).await,
+        PeerAct::Close => {
             p.close().await;
             true
         }
-        (None, _) => false,
     };
-    if let Some(p) = taken {
-        if first_inbound {
-            inbound.push(p);
-        } else {
-            probe.conns.lock().push(p);
-        }
+    if is_inbound {
+        inbound.insert(pos.min(inbound.len()), p);
+    } else {
+        let mut g = probe.conns.lock();
+        let at = pos.min(g.len());
+        g.insert(at, p);
     }
     ok
+}
+
+/// connections other than `main` the peer has not seen closed yet (side connections of probes, connections the
+/// history moved away from): nobody holds a handle on them, so "not closed" = still registered
+fn others_open(main: Option<u32>, inbound: &[PeerConn], probe: &FactoryProbe) -> usize {
+    let f = |p: &PeerConn| Some(p.id) != main && p.eof_at.lock().is_none();
+    inbound.iter().filter(|p| f(p)).count() + probe.conns.lock().iter().filter(|p| f(p)).count()
 }
 
 fn options(marker: &str, via_transport: &str) -> Vec<u8> {
@@ -187,7 +421,7 @@ fn options(marker: &str, via_transport: &str) -> Vec<u8> {
 
 pub fn check(case: &Case, out: &mut CaseOut) {
     let c = case.clone();
-    let (obs, model, steps): (Observed, Model, Vec<String>) = run_world(case.rng as u64, |clock| async move {
+    let (obs, model, steps, facts): (Observed, Model, Vec<String>, Facts) = run_world(case.rng as u64, |clock| async move {
         let log = WireLog::new(clock);
         let (factory, probe) = mock_factory::<false>(clock, &log);
         let (lb, dialer) = mock_listener::<false>(clock, &log, "10.0.0.1:5060");
@@ -200,19 +434,27 @@ pub fn check(case: &Case, out: &mut CaseOut) {
         lb.spawn(&mut b, "10.0.0.1:5060").await.unwrap();
         let endpoint = b.build();
         settle().await;
-        let uri: SipUri = "sip:peer@192.0.2.5:5060;transport=tcp".parse().unwrap();
+        let uri: SipUri = format!("sip:peer@{MAIN_REMOTE};transport=tcp").parse().unwrap();
+        let main_remote: std::net::SocketAddr = MAIN_REMOTE.parse().unwrap();
+        // newest connection the factory opened to the remote of the connection under test
+        let newest_main = |probe: &FactoryProbe| probe.conns.lock().iter().filter(|p| p.peer_addr == main_remote).map(|p| p.id).max();
 
         let mut m = Model::default();
+        let mut facts = Facts::default();
         let mut problems: Vec<String> = vec![];
         let mut steps: Vec<String> = vec![];
         let mut handles: Vec<TpHandle> = vec![];
-        // peer ends of every connection of this case, current one last
+        // peer ends of accepted connections (those of the factory live in probe.conns)
         let mut inbound_conns: Vec<PeerConn> = vec![];
         let mut delivered: Vec<(u64, String, u32)> = vec![];
+        // peer conn id of the connection the history currently talks about
+        let mut main_id: Option<u32>;
 
         // open the connection
         if c.inbound {
-            inbound_conns.push(dialer.dial("192.0.2.5:5060"));
+            let p = dialer.dial(MAIN_REMOTE);
+            main_id = Some(p.id);
+            inbound_conns.push(p);
             settle().await;
             m.alive = true;
             m.unused_since = Some(0);
@@ -222,10 +464,10 @@ pub fn check(case: &Case, out: &mut CaseOut) {
                 Ok((h, _)) => handles.push(h),
                 Err(e) => problems.push(format!("initial select failed: {e}")),
             }
+            main_id = newest_main(&probe);
             settle().await;
             m.alive = true;
             m.handles = 1;
-            m.connects = 1;
             m.generation = 1;
         }
 
@@ -251,7 +493,7 @@ pub fn check(case: &Case, out: &mut CaseOut) {
                     if handles.pop().is_some() {
                         m.handles -= 1;
                         if m.handles == 0 {
-                            m.unused_since = Some(t);
+                            m.released_last(t);
                         }
                     }
                 }
@@ -259,7 +501,7 @@ pub fn check(case: &Case, out: &mut CaseOut) {
                     if !handles.is_empty() {
                         handles.clear();
                         m.handles = 0;
-                        m.unused_since = Some(t);
+                        m.released_last(t);
                     }
                 }
                 Op::Msg { keep } => {
@@ -267,34 +509,45 @@ pub fn check(case: &Case, out: &mut CaseOut) {
                     let marker = format!("m{seq}");
                     msg_gen.insert(marker.clone(), m.generation);
                     let bytes = options(&marker, "TCP");
-                    let _ = peer_do(c.inbound && m.generation == 1, &mut inbound_conns, &probe, PeerAct::Write(bytes)).await;
+                    let written = peer_do(main_id, &mut inbound_conns, &probe, PeerAct::Write(bytes)).await;
                     // the rest of this op happens after the scheduling point below
                     if m.alive {
                         m.expected_delivered.push(marker.clone());
+                        if written {
+                            m.msg_unsettled = true;
+                            m.task_has_message = true;
+                        }
                     }
-                    // let the stack run unless the next op shares the instant
-                    let next_same_instant = c.ops.get(i + 1).map_or(false, |(g, _)| *g == 0);
-                    if !next_same_instant {
-                        settle().await;
-                    }
-                    // collect what the layer got (possibly later, after the shared-instant partner ran)
                     let _ = keep;
                 }
                 Op::PeerClose => {
-                    peer_do(c.inbound && m.generation == 1, &mut inbound_conns, &probe, PeerAct::Close).await;
+                    peer_do(main_id, &mut inbound_conns, &probe, PeerAct::Close).await;
                     if m.alive {
                         m.alive = false;
+                        m.dirty = true;
+                        m.task_has_close = true;
                     }
                 }
                 Op::Garbage => {
-                    peer_do(c.inbound && m.generation == 1, &mut inbound_conns, &probe, PeerAct::Write(b"\x01\x02 this is not sip\r\n\r\n".to_vec())).await;
+                    peer_do(main_id, &mut inbound_conns, &probe, PeerAct::Write(b"\x01\x02 this is not sip\r\n\r\n".to_vec())).await;
                     if m.alive {
                         m.alive = false;
+                        m.dirty = true;
+                        m.task_has_close = true;
                     }
                 }
-                Op::Select => {
-                    // reuse is only demanded after a scheduling point
-                    settle().await;
+                Op::Select | Op::Touch => {
+                    let touch = matches!(op, Op::Touch);
+                    // reuse is only demanded, and a closed connection only known to be closed, after a scheduling
+                    // point following the release of the last handle / the close. In every other state the
+                    // selection happens right here, whatever is pending on the connection.
+                    if m.dirty {
+                        settle().await;
+                        m.settled();
+                    }
+                    if m.msg_unsettled {
+                        facts.select_while_message_pending = true;
+                    }
                     let before = probe.connects.lock().len();
                     match endpoint.select_transport(&uri).await {
                         Ok((h, _)) => {
@@ -304,9 +557,21 @@ pub fn check(case: &Case, out: &mut CaseOut) {
                                 if after != before {
                                     problems.push(format!("t={t}: live outbound connection not reused (connect called)"));
                                 }
-                                m.handles += 1;
-                                m.unused_since = None;
-                                handles.push(h);
+                                if touch {
+                                    drop(h);
+                                    if m.handles == 0 {
+                                        // picked up and released: that is a use, the idle period starts again
+                                        m.revived_this_instant = true;
+                                        m.released_last(t);
+                                    }
+                                } else {
+                                    if m.handles == 0 {
+                                        m.revived_this_instant = true;
+                                    }
+                                    m.handles += 1;
+                                    m.unused_since = None;
+                                    handles.push(h);
+                                }
                             } else {
                                 if after == before {
                                     problems.push(format!(
@@ -314,25 +579,64 @@ pub fn check(case: &Case, out: &mut CaseOut) {
                                         if c.inbound && m.generation == 1 && m.alive { "inbound" } else { "closed/expired" }
                                     ));
                                 }
-                                // from now on the new connection is the one the history talks about;
-                                // handles on the old one are let go
+                                // from now on the new connection is the one the history talks about; handles on
+                                // the old one are let go. The old one still has to end its own idle period on time.
+                                if let Some(id) = main_id {
+                                    if m.alive {
+                                        let last_use = if m.handles > 0 || m.msg_unsettled { t } else { m.unused_since.unwrap_or(t) };
+                                        m.left.push((id, last_use + IDLE));
+                                    } else if let Some(e) = m.expect_eof {
+                                        m.left.push((id, e));
+                                    }
+                                }
                                 handles.clear();
-                                handles.push(h);
+                                if after != before {
+                                    main_id = newest_main(&probe);
+                                }
                                 m.generation += 1;
-                                m.connects += 1;
                                 m.alive = true;
-                                m.handles = 1;
-                                m.unused_since = None;
                                 m.expect_eof = None;
+                                m.msg_unsettled = false;
+                                m.settled();
+                                if touch {
+                                    drop(h);
+                                    m.handles = 0;
+                                    m.released_last(t);
+                                } else {
+                                    handles.push(h);
+                                    m.handles = 1;
+                                    m.unused_since = None;
+                                }
                             }
                         }
                         Err(e) => problems.push(format!("t={t}: select_transport failed: {e}")),
                     }
                 }
+                Op::Probe { target } => {
+                    // not a use of the connection under test, whatever state it is in; no scheduling point
+                    if m.alive {
+                        if m.handles == 0 {
+                            if !facts.probe_while_unreferenced.contains(target) {
+                                facts.probe_while_unreferenced.push(*target);
+                            }
+                        } else {
+                            facts.probe_while_referenced = true;
+                        }
+                    }
+                    match endpoint.select_transport(&target.uri()).await {
+                        Ok((h, _)) => {
+                            facts.probe_side_connection = true;
+                            drop(h);
+                        }
+                        Err(_) => facts.probe_refused = true,
+                    }
+                }
             }
             let next_same_instant = c.ops.get(i + 1).map_or(false, |(g, _)| *g == 0);
             if !next_same_instant {
+                // let the stack run
                 settle().await;
+                m.settled();
                 // deliveries: keep or release the handle that came with each request
                 while let Ok(req) = rx.try_recv() {
                     let marker = req
@@ -365,17 +669,19 @@ pub fn check(case: &Case, out: &mut CaseOut) {
                     }
                     drop(req);
                 }
+                m.msg_unsettled = false;
                 settle().await;
                 let count = endpoint.verif_counts().1;
-                steps.push(format!("{t}ms {op:?} -> handles={} alive={} managed={count}", m.handles, m.alive));
+                let others = others_open(main_id, &inbound_conns, &probe);
+                let count_main = count.saturating_sub(others);
+                steps.push(format!("{t}ms {op:?} -> handles={} alive={} managed={count} (other open connections {others})", m.handles, m.alive));
                 // registered while referenced
-                if m.alive && m.handles > 0 && count == 0 {
+                if m.alive && m.handles > 0 && count_main == 0 {
                     problems.push(format!("t={t}: connection with {} live handles is not registered any more", m.handles));
                 }
-                // (older connections of this history may still be in their own idle period: only judged while
-                // the first connection is the only one)
-                if !m.alive && m.expect_eof.is_none() && count != 0 && i + 1 == n && m.generation == 1 {
-                    problems.push(format!("t={t}: closed connection still registered ({count})"));
+                // (judged while the first connection is the one the history talks about)
+                if !m.alive && m.expect_eof.is_none() && count_main != 0 && i + 1 == n && m.generation == 1 {
+                    problems.push(format!("t={t}: closed connection still registered ({count_main})"));
                 }
             }
         }
@@ -401,22 +707,19 @@ pub fn check(case: &Case, out: &mut CaseOut) {
         }
         clock.advance(3 * IDLE).await;
         settle().await;
-        // the connection the history talks about at its end comes last
-        let mut eof = vec![];
+        let mut all_eof = vec![];
+        for p in inbound_conns.iter() {
+            all_eof.push((p.id, *p.eof_at.lock()));
+        }
         for p in probe.conns.lock().iter() {
-            eof.push((p.id, *p.eof_at.lock()));
+            all_eof.push((p.id, *p.eof_at.lock()));
         }
-        if c.inbound && m.generation == 1 {
-            for p in inbound_conns.iter() {
-                eof.push((p.id, *p.eof_at.lock()));
-            }
-        }
+        let eof = main_id.and_then(|id| all_eof.iter().find(|e| e.0 == id).copied());
         let final_count = endpoint.verif_counts().1;
-        let _ = probe.fail.load(Ordering::SeqCst);
-        (Observed { delivered, problems, eof, final_count }, m, steps)
+        (Observed { delivered, problems, eof, all_eof, final_count }, m, steps, facts)
     });
 
-    out.note = Some(format!("steps={steps:?} delivered={:?} eof={:?}", obs.delivered, obs.eof));
+    out.note = Some(format!("steps={steps:?} delivered={:?} eof={:?} left={:?} all_eof={:?}", obs.delivered, obs.eof, model.left, obs.all_eof));
     out.class(if case.inbound { "inbound" } else { "outbound" });
     let mut race = false;
     for w in case.ops.windows(2) {
@@ -431,14 +734,41 @@ pub fn check(case: &Case, out: &mut CaseOut) {
             }
         }
     }
-    let edge = case.ops.iter().any(|(g, _)| *g == IDLE - 1 || *g == IDLE + 1);
+    let edge = case.ops.iter().any(|(g, _)| g.abs_diff(IDLE) <= 3);
     if edge {
-        out.class("event-within-1ms-of-32s-edge");
+        out.class("event-within-3ms-of-32s-edge");
     }
     if model.ambiguous {
         out.class("tie-on-32s-edge(unasserted)");
     }
-    if race || edge {
+    if model.pickup_released_ever {
+        out.class("idle-connection-picked-up-and-released-between-polls");
+    }
+    if model.pickup_with_message_ever {
+        out.class("pickup-release-and-message-same-instant");
+    }
+    if model.pickup_with_close_ever {
+        out.class("pickup-release-and-close-same-instant");
+    }
+    if facts.select_while_message_pending {
+        out.class("select-while-message-pending");
+    }
+    for t in &facts.probe_while_unreferenced {
+        out.class(t.label());
+    }
+    if facts.probe_while_referenced {
+        out.class("probe-while-referenced");
+    }
+    if facts.probe_refused {
+        out.class("probe-refused(no transport for target)");
+    }
+    if facts.probe_side_connection {
+        out.class("probe-served-by-side-connection");
+    }
+    if !model.left.is_empty() {
+        out.class("left-connection-expiry-judged");
+    }
+    if race || edge || model.pickup_with_message_ever || model.pickup_with_close_ever || !facts.probe_while_unreferenced.is_empty() {
         out.nontrivial(case);
     }
 
@@ -456,6 +786,17 @@ pub fn check(case: &Case, out: &mut CaseOut) {
         };
         out.fail(format!("c15.lifecycle/{locus}"), p.clone());
     }
+    // connections the history moved away from end their own idle period on time (decided when they were left)
+    for (id, want) in &model.left {
+        match obs.all_eof.iter().find(|e| e.0 == *id).and_then(|e| e.1) {
+            Some(t) if t.abs_diff(*want) <= 2 => {}
+            Some(t) => out.fail(
+                if t < *want { "c15.expiry/left-connection-closed-too-early" } else { "c15.expiry/left-connection-closed-too-late" },
+                format!("connection the application no longer uses closed at {t} ms, expected 32 s after its last use = {want} ms"),
+            ),
+            None => out.fail("c15.expiry/left-connection-never-closed", format!("connection the application no longer uses never closed, expected at {want} ms")),
+        }
+    }
     if model.ambiguous {
         return;
     }
@@ -470,7 +811,7 @@ pub fn check(case: &Case, out: &mut CaseOut) {
     }
     // idle expiry: the connection is closed 32 s after it was last used
     if let Some(want) = model.expect_eof {
-        let last = obs.eof.last().and_then(|e| e.1);
+        let last = obs.eof.and_then(|e| e.1);
         match last {
             Some(t) if t.abs_diff(want) <= 2 => {}
             Some(t) => out.fail(
@@ -489,15 +830,19 @@ pub fn property() -> Property {
     Property {
         fuzz: vec![],
         id: "C15",
-        rule: "a case = one mock connection (outbound via a mock factory + select_transport, or inbound via a mock listener) and a history of 1..8 ops {clone handle, drop handle, drop all, inbound message (application keeps / releases the handle that comes with it), peer close, garbage bytes, select_transport to the same remote} with gaps from {0 (same instant, no scheduling point), 1, 100, 16000, 32000-1, 32000+1, 64000} ms under a paused clock and a tokio select seed. race sub-check enumerates the race named by the property (last handle dropped and a message in the same instant, both orders, around idle periods on the 32 s edge) under 64 (thorough 256) select seeds. Oracle = lifecycle reference model: registered while referenced; delivered exactly once while alive; closed 32 s after last use; unregistered at once on peer close / framing error and never selected afterwards; inbound connections never selected. Non-trivial = a drop-last and a message within 1 ms, or an event within 1 ms of a 32 s edge.",
+        rule: "a case = one mock connection under test (outbound via a mock factory + select_transport, or inbound via a mock listener) and a history of 1..8 ops {clone handle, drop handle, drop all, inbound message (application keeps / releases the handle that comes with it), peer close, garbage bytes, select_transport to the same remote (handle kept), touch = select_transport to the same remote + release of the handle with no scheduling point in between, probe = select_transport for a target the connection must not serve (sips: on the same address, other port, other host; handle released at once)} with gaps from {0 (same instant, no scheduling point: all ops of an instant are pending when the connection's task is polled), 1, 100, 16000, 32000-3, 32000-1, 32000+1, 32000+3, 64000} ms under a paused clock and a tokio select seed. race sub-check enumerates the race named by the property (last handle dropped and a message in the same instant, both orders, around idle periods on the 32 s edge) under 64 (thorough 256) select seeds. pickup sub-check enumerates an idle outbound connection picked up and released between two polls of its task together with message(s) / peer close / garbage in the same instant (7 shapes with a message x keep, 2 without, x idle time before x 32 s -3/+3 ms after) under 32 (thorough 256) select seeds. probe sub-check enumerates selections for the three other targets, once and every 20 s, while the connection is idle / silent / referenced. Oracle = lifecycle reference model: registered while referenced; delivered exactly once while alive; closed 32 s after last use (selections for other targets are no use); unregistered at once on peer close / framing error and never selected afterwards; live outbound connection reused; inbound connections never selected; a connection the history moved away from still expires 32 s after its own last use. Non-trivial = a drop-last and a message within 1 ms, or an event within 3 ms of a 32 s edge, or a pick-up + release of an unreferenced connection sharing its instant with a message / close, or a probe while the connection is unreferenced.",
         assumptions: vec![
             "events exactly on the 32 s edge (within 2 ms) stop the comparison (tie is a don't-care)",
-            "reuse is only demanded after a scheduling point (settle) following the drop",
+            "reuse is only demanded, and a peer close / framing error only has to be known, after a scheduling point (settle) following the release of the last handle / the close; in every other state select_transport is called with whatever is pending",
             "the peer observes the close as EOF on the in-memory duplex pipe",
+            "only a non-secure (TCP) factory is registered: a sips: target has no transport and select_transport may refuse it; what a probe returns is not judged",
+            "managed-transport count is attributed to the connection under test after subtracting the other connections of the case the peer has not seen closed (nobody holds handles on those)",
         ],
-        explanation: "race sub-check exhaustive over its small product x seeds; random histories sampled",
+        explanation: "race, pickup and probe sub-checks exhaustive over their small products x seeds; random histories sampled",
         subs: vec![
             enum_sub("race", race_cases, check),
+            enum_sub("pickup", pickup_cases, check),
+            enum_sub("probe", probe_cases, check),
             prop_sub("history", strategy, 1500, 30000, check),
         ],
     }
